@@ -255,6 +255,7 @@ func (e *Exec) call(st *State, x *ast.CallExpr) Val {
 			}
 			sig := obj.Type().Underlying().(*types.Signature)
 			args := e.evArgs(st, x, sig)
+			e.closureSiteChecks(st, f.Name, sig, args, x)
 			return e.callValue(st, fv, sig, args, x)
 		}
 	case *ast.FuncLit:
@@ -714,7 +715,17 @@ func (e *Exec) callFunc(st *State, fn *types.Func, recv *Val, args []Val, x *ast
 		}
 		if depthOK && !rec {
 			e.inlined[full]++
-			return e.inline(st, pkg, decl, decl.Type, decl.Body, decl.Recv, sig, recv, args, full, x)
+			if res, ok := e.tryInline(st, pkg, decl, sig, recv, args, full, x); ok {
+				return res
+			}
+			// the callee's body left the supported subset: fall back to an opaque call (sound: arbitrary
+			// results, all heaps havocked)
+			delete(e.inlined, full)
+			all := args
+			if recv != nil {
+				all = append([]Val{*recv}, args...)
+			}
+			return e.opaqueCall(st, name+" (body outside the supported subset)", sig, all, true)
 		}
 	}
 	all := args
@@ -910,6 +921,12 @@ func (e *Exec) callByContract(st *State, fc *FuncContract, sig *types.Signature,
 	env.old = old
 	env.pkgPath = fc.PkgPath()
 	for _, r := range fc.Requires {
+		if e.quiet || e.inContract > 0 {
+			break // inside an inlined callee or a contract expression: not the code under verification
+		}
+		if tc := e.frames[0].contract; tc != nil && tc.Opts["precall"] == "off" {
+			break // the caller's contract only carries call-site clauses; callee preconditions are not claimed
+		}
 		g := e.evContract(st, r.Expr, env)
 		pos := token.NoPos
 		if x != nil {
@@ -1027,12 +1044,16 @@ func (e *Exec) inline(st *State, pkg *packages.Package, node ast.Node, ft *ast.F
 				vals = append(vals, st.vars[r])
 			}
 		}
-		fr.returns = append(fr.returns, &retRec{st: st.clone(), vals: vals})
+		fr.returns = append(fr.returns, &retRec{st: st.clone(), vals: vals, ndefer: -1})
 		st.dead = true
 	}
 	// deferred calls run at every exit
 	for _, rr := range fr.returns {
-		for j := len(fr.defers) - 1; j >= 0; j-- {
+		nd := len(fr.defers)
+		if rr.ndefer >= 0 && rr.ndefer < nd {
+			nd = rr.ndefer // a return before a defer statement does not run it
+		}
+		for j := nd - 1; j >= 0; j-- {
 			fr.defers[j](rr.st)
 		}
 		// named results may have been changed by deferred closures
